@@ -89,7 +89,8 @@ public:
 	}
 
 	basic_string_view sub_string(size_t from, size_t size) const {
-		FRG_ASSERT(from + size <= _length);
+		// Note that from + size may wrap around.
+		FRG_ASSERT(from <= _length && size <= _length - from);
 		return basic_string_view(_pointer + from, size);
 	}
 
